@@ -9,8 +9,19 @@ def hist(profile, cases, tier="quick", extra=None, timeout=1500):
 
 
 T1 = ["--threads", "1"]
+import os as _os
+_FX = _os.path.join(_os.path.dirname(_os.path.dirname(_os.path.abspath(__file__))), "fixtures")
+FIXTURES = [{"name": "fixture:" + m, "args": ["fixture-load", _os.path.join(_FX, f"golden-{m}.fixture")]}
+            for m in ["euclidean", "manhattan", "cosine", "dot", "bqeuclidean", "bqmanhattan", "bqcosine"]]
 
 SCENARIOS = {
+    "C04": {
+        "theorems": ["C04_selfLookup", "C04_selfLookup_symm", "C04_selfLookup_by_item", "C04_routed_meaning", "C04_readerFirst_spec",
+                     "C04_side_eq_readerFirst"],
+        "quick": [hist("c04", 50, extra=T1)],
+        "thorough": [hist("c04", 1200, "thorough", extra=T1), hist("c04", 300, "thorough")],
+        "counts": ["C04"],
+    },
     "C05": {
         "theorems": ["C05_add", "C05_append", "C05_del", "C05_clear", "C05_contains", "C05_vector", "C05_readback_f32",
                      "C05_iter", "C05_isEmpty", "C05_refines", "C05_bq_readback_given_roundtrip"],
@@ -46,6 +57,72 @@ SCENARIOS = {
         "thorough": [hist("c07", 1200, "thorough", extra=T1), hist("c07", 300, "thorough")],
         "counts": ["C07"],
     },
+    "C08": {
+        "theorems": ["C08_snapshot", "C08_reader_sees_committed", "C08_abort", "C08_commit"],
+        "quick": [{"name": "threads", "args": ["threads", "--seed", "{seed}"]}],
+        "thorough": [{"name": "threads", "args": ["threads", "--seed", "{seed}", "--tier", "thorough"], "timeout": 3000}],
+        "counts": ["C08", "C01", "C02"],
+        "assumptions": ["MVCC and the single-writer lock are LMDB's; thread interleavings are sampled (barrier-controlled and free-running), not proved"],
+    },
+    "C09": {
+        "theorems": ["C09_crash", "C09_uncommitted_lost", "C09_committed_kept", "C09_restart"],
+        "quick": [{"name": "crash", "args": ["crash", "--seed", "{seed}"]}],
+        "thorough": [{"name": "crash", "args": ["crash", "--seed", "{seed}", "--tier", "thorough"], "timeout": 3000}],
+        "counts": ["C09", "C01", "C02"],
+        "assumptions": ["durability of a returned commit is LMDB's; a process kill (SIGKILL) stands for a crash, power loss is out of reach"],
+    },
+    "C10": {
+        "theorems": ["C10_transparent_ok", "C10_transparent_err", "C10_cancel_iff", "C10_cancel_late", "C10_abort", "C10_retry",
+                     "C10_cancel_abort_retry"],
+        "quick": [{"name": "faults", "args": ["faults", "--seed", "{seed}"]}, hist("c10", 30, extra=T1)],
+        "thorough": [{"name": "faults", "args": ["faults", "--seed", "{seed}", "--tier", "thorough"], "timeout": 3000},
+                     hist("c10", 400, "thorough", extra=T1)],
+        "counts": ["C10", "C01"],
+        "assumptions": ["the no-temp-file / no-descriptor clause rests on Rust's Drop; it is observed on the real process (fdcheck), not proved"],
+    },
+    "C11": {
+        "theorems": ["C11_cover_dot_scalar", "C11_cover_dot_sse", "C11_cover_dot_avx", "C11_cover_euclid_scalar", "C11_cover_euclid_sse",
+                     "C11_cover_euclid_avx", "C11_dispatch", "C11_symm", "C11_self_zero_euclid", "C11_self_zero_manhattan",
+                     "C11_cosine_range", "C11_round", "C11_round_simd"],
+        "quick": [{"name": "kernels", "args": ["kernels", "--seed", "{seed}"]}],
+        "thorough": [{"name": "kernels", "args": ["kernels", "--seed", "{seed}", "--tier", "thorough"], "timeout": 3000}],
+        "counts": ["C11"],
+        "nontrivial": "any",
+        "rule": "records = one kernel or distance evaluation each (every kernel x lengths 1..300 x byte offsets x value families); each is "
+                "compared bit for bit with the soft-float kernels of the model and, for finite operands, with the exact sum within the "
+                "summation error bound",
+        "assumptions": ["the rounding-error theorems are relative to the standard model of floating-point arithmetic (no overflow/underflow)",
+                        "the NEON paths are not modelled (no aarch64 host)"],
+    },
+    "C13": {
+        "theorems": ["C13_unique", "C13_unique_log", "C13_full", "C13_full_step", "C13_counter", "C13_sequential", "C13_fresh_supply",
+                     "C13_fresh_gen"],
+        "quick": [{"name": "ids", "args": ["ids", "--seed", "{seed}"]}, hist("c13", 30)],
+        "thorough": [{"name": "ids", "args": ["ids", "--seed", "{seed}", "--tier", "thorough"], "timeout": 3000},
+                     hist("c13", 500, "thorough")],
+        "counts": ["C13", "C01"],
+        "assumptions": ["each atomic cell is sequentially consistent in the model (Relaxed orderings beyond per-operation atomicity are not modelled)"],
+    },
+    "C15": {
+        "theorems": ["C15_requested", "C15_auto", "C15_auto_cases", "C15_cap"],
+        "quick": [hist("c15", 60, extra=T1)],
+        "thorough": [hist("c15", 1500, "thorough", extra=T1), hist("c15", 300, "thorough")],
+        "counts": ["C15"],
+    },
+    "C17": {
+        "theorems": ["C17_up_down", "C17_up_down_eq", "C17_stamp", "C17_remap_inverse", "C17_updated_marks", "C17_up_down_open",
+                     "C17_cannot_decode_key"],
+        "quick": [{"name": "upgrade", "args": ["upgrade", "--seed", "{seed}"]}],
+        "thorough": [{"name": "upgrade", "args": ["upgrade", "--seed", "{seed}", "--tier", "thorough"], "timeout": 3000}],
+        "counts": ["C17", "C01", "C06"],
+    },
+    "C18": {
+        "theorems": ["C18_same", "C18_change", "C18_f32_to_f32", "C18_to_bq", "C18_from_bq", "C18_old_metric_refused",
+                     "C18_old_metric_refused_after_build"],
+        "quick": [hist("c18", 49, extra=T1)],
+        "thorough": [hist("c18", 980, "thorough", extra=T1)],
+        "counts": ["C18", "C01", "C02"],
+    },
     "C19": {
         "theorems": ["C19_dim_add", "C19_dim_append", "C19_dim_query", "C19_append", "C19_del_absent", "C19_needBuild_unchanged"],
         "quick": [hist("c19", 60, extra=T1)],
@@ -55,8 +132,8 @@ SCENARIOS = {
     "C16": {
         "theorems": ["C16_layout", "C16_key_len", "C16_key_order", "C16_key_roundtrip", "C16_key_inj",
                      "C16_nodeid_roundtrip", "C16_version_roundtrip"],
-        "quick": [{"name": "keys", "args": ["keys", "--seed", "{seed}"]}, hist("c16", 25, extra=["--threads", "1"])],
-        "thorough": [{"name": "keys", "args": ["keys", "--seed", "{seed}", "--tier", "thorough"]}, hist("c16", 300, "thorough", extra=["--threads", "1"])],
+        "quick": [{"name": "keys", "args": ["keys", "--seed", "{seed}"]}, hist("c16", 25, extra=["--threads", "1"])] + FIXTURES,
+        "thorough": [{"name": "keys", "args": ["keys", "--seed", "{seed}", "--tier", "thorough"]}, hist("c16", 300, "thorough", extra=["--threads", "1"])] + FIXTURES,
         "nontrivial": "builds_splits",
         "counts": ["C16"],
         "assumptions": ["little-endian host for the native-endian fields (f32 components, roots, quantised words)"],
